@@ -459,3 +459,58 @@ func rmCompiler(w *World) {
 	}
 	w.floor("uses of SearchResult.ParseResult/Proto in the compile path", n, 6)
 }
+
+// rl3CloneReadOnly (RL3): the functions in parser/clone.go that re-create the node index only
+// write clone.nodes; they never assign into either descriptor proto (proto.Clone already made the
+// deep copy) and never skip an element (no continue/break/goto in their loops).
+func rl3CloneReadOnly(w *World) {
+	w.rule("RL3")
+	p := w.pkg("parser")
+	nodesF := w.field("parser", "result", "nodes")
+	if p == nil || nodesF == nil {
+		return
+	}
+	info := p.TypesInfo
+	n := 0
+	for _, b := range allFuncBodies(p) {
+		if b.Lit != nil || !strings.HasSuffix(w.Fset.Position(b.Decl.Pos()).Filename, "clone.go") || b.Obj.Name() == "Clone" {
+			continue
+		}
+		n++
+		bad := 0
+		ast.Inspect(b.Body, func(x ast.Node) bool {
+			switch s := x.(type) {
+			case *ast.AssignStmt:
+				for _, l := range s.Lhs {
+					e := ast.Unparen(l)
+					if ix, ok := e.(*ast.IndexExpr); ok {
+						if selField(info, ix.X) == nodesF {
+							continue // the one sanctioned write
+						}
+						e = ix.X
+					}
+					if sel, ok := e.(*ast.SelectorExpr); ok {
+						if tv, ok := info.Types[sel.X]; ok {
+							t := tv.Type
+							if pt, ok := t.(*types.Pointer); ok {
+								t = pt.Elem()
+							}
+							if nn, ok := t.(*types.Named); ok && nn.Obj().Pkg() != nil && nn.Obj().Pkg().Path() == descpbPath {
+								bad++
+								w.violation("clone-readonly|"+b.Label+"|"+render(l), l.Pos(), "index re-creation assigns into a descriptor proto ("+render(l)+"): the clone's proto must stay exactly what proto.Clone produced — aliasing or rewriting parts of it breaks the correspondence between clone elements and the original's AST nodes")
+							}
+						}
+					}
+				}
+			case *ast.BranchStmt:
+				bad++
+				w.violation("clone-noskip|"+b.Label, s.Pos(), "a "+s.Tok.String()+" in the index re-creation can skip an element: its AST node is then missing from the clone's index")
+			}
+			return true
+		})
+		if bad == 0 {
+			w.ok("clone-readonly|"+b.Label, b.Decl.Pos(), "writes only clone.nodes; no assignment into a descriptor proto; no loop skipping")
+		}
+	}
+	w.floor("index re-creation functions in parser/clone.go", n, 6)
+}
